@@ -90,6 +90,13 @@ def run(R):
     n = 500 if q else 20000
     R.drive("c02", "out=" + tr, "n=%d" % n, "seed=%d" % R.seed, "prop=c16", "caps=0,31", timeout=3000)
     R.validate("Trace_J2T", tr, reset_events=("Desc",), timeout=3000)
+    # --- t2j and cutting on seeded random descriptors (ids up to 32767, several descriptors per process: pooled bitmaps are reused)
+    tr = os.path.join(R.scratch, "c16-rand-t2j.ndjson")
+    R.drive("c03", "out=" + tr, "n=%d" % (400 if q else 20000), "seed=%d" % R.seed, "prop=c16", timeout=3000)
+    R.validate("Trace_T2J", tr, reset_events=("Desc",), timeout=3000)
+    tr = os.path.join(R.scratch, "c16-rand-cut.ndjson")
+    R.drive("c11", "out=" + tr, "n=%d" % (400 if q else 20000), "seed=%d" % R.seed, timeout=3000)
+    R.validate("Trace_Cut", tr, reset_events=("Desc",), timeout=3000)
     R.extra_cov["table_rows"] = len(cases)
     return vlib.finish(R, "model_checking", RULE, ASSUME, exhaustive=True)
 
